@@ -294,6 +294,24 @@ fn file_cases() -> impl Strategy<Value = Case> {
             }
             Case::File { bytes, obj_ext }
         }),
+        // object files whose bytes spell something a tool might sniff: assembler source, a shebang,
+        // byte order marks, other formats' magic numbers - padded to an even length or not; to
+        // the loader they are an origin and words like any others
+        3 => (
+            prop::sample::select(vec![
+                &b".orig x3000\nhalt\n.end\n"[..], b".ORIG x3000\n", b".orig", b".Orig x2E6F\nstr r1,r1,#-23\n", b"; a comment\nhalt\n", b"#!/usr/bin/lace\n", b"add r0 r0 #1\nhalt\n",
+                b"\xEF\xBB\xBF.orig x3000\n", b"\xFF\xFE.\0o\0", b"\x7fELF\x02\x01\x01\0", b"PK\x03\x04", b"<!DOCTYPE html>", b"MZ\x90\0", b"\x1f\x8b\x08\0", b"halt", b".end\n", b"lc3\0\x30\0",
+            ]),
+            0usize..3,
+            any::<bool>(),
+        )
+            .prop_map(move |(text, pad, obj_ext)| {
+                let mut bytes = text.to_vec();
+                for _ in 0..pad {
+                    bytes.extend(halt);
+                }
+                Case::File { bytes, obj_ext }
+            }),
         // very large images
         1 => (0u16..4, 65000usize..65540).prop_map(move |(orig, n)| {
             let mut bytes = orig.to_be_bytes().to_vec();
@@ -314,7 +332,7 @@ impl Prop for C06 {
     }
     fn rule(&self) -> &'static str {
         "(a) ProgGen programs (terminating, with output, optional input, origins incl. none) through the real binary: `lace compile` (over an absent destination, an older longer file, the object file of a longer version of the same program - the new image followed by further words -, a prefix of the new image, or the image itself) must exit 0 and leave exactly 2(n+1) bytes = big-endian origin (0x3000 without .orig) ++ RefAsm's words; `lace run prog.lc3` and `lace run prog.asm` (same flags, same stdin) must give the same exit status and the same stdout modulo the `target <name>` banner lines, and both must equal RefVM (exit status, banner lines, program output character for character). \
-         (b) byte strings offered as .lc3 / .obj (a quarter of them through a named pipe of that name, whose `stat` length is 0): empty, 1 byte, odd lengths, origin only (incl. 0xFFFF, 0xFE00), images ending exactly at / one or two below / above 0x10000, ordinary images, 65,000-65,540-word images, and an enumerated grid of file sizes 131,070..262,145 bytes x origins {0,1,2,0x3000}: accepted <=> even length >= 2 and origin + n + 1 <= 0x10000; accepted files behave as RefVM says; rejected ones exit non-zero with a status other than 101, no signal, no panic message, and are not run. \
+         (b) byte strings offered as .lc3 / .obj (a quarter of them through a named pipe of that name, whose `stat` length is 0): empty, 1 byte, odd lengths, origin only (incl. 0xFFFF, 0xFE00), images ending exactly at / one or two below / above 0x10000, ordinary images, files whose bytes spell assembler source, a shebang, byte order marks or other formats' magic numbers, 65,000-65,540-word images, and an enumerated grid of file sizes 131,070..262,145 bytes x origins {0,1,2,0x3000}: accepted <=> even length >= 2 and origin + n + 1 <= 0x10000; accepted files behave as RefVM says; rejected ones exit non-zero with a status other than 101, no signal, no panic message, and are not run. \
          Non-trivial: the program prints and has a label or a non-default / absent origin; or the file is within 2 words of a loader limit, odd or tiny. Distinct = hash(file bytes / source + input)."
     }
     fn assumptions(&self) -> Vec<String> {
